@@ -936,6 +936,11 @@ public:
         X.enqueue(FD);
         return true;
     }
+    bool VisitCXXRecordDecl(CXXRecordDecl* RD) {
+        if (RD->isCompleteDefinition() && X.underRoot(RD->getLocation()))
+            X.emitRecord(RD);
+        return true;
+    }
     bool VisitVarDecl(VarDecl* VD) {
         if (VD->getType()->isConstantArrayType() ||
             VD->getType()->isArrayType())
